@@ -42,6 +42,8 @@ def r1_compare_all(repo=None):
             continue
         mtype, canon, node, miss_ok, mism_ok = t_cmp[name]
         wsrc = t_prop[name][2]
+        if miss_ok is None:
+            raise AnalysisError("%s: how the helper that opens `%s` reports a missing attribute to the restart comparison was not recognised" % (H, name))
         if canon == wsrc and mtype == t_prop[name][1] and miss_ok and mism_ok:
             r.ok("%s:%s %s `%s`" % (LIB, node.line, H, name), "compared with %s; missing or different -> non-zero return" % canon)
         else:
